@@ -195,7 +195,8 @@ def _install():
 		if not p.startswith(_S['root']):
 			return
 		word = (statement.lstrip().split(None, 1) or ['?'])[0].upper()
-		if word not in ('SELECT', 'PRAGMA'):
+		# transaction control (SAVEPOINT / RELEASE / ROLLBACK [TO] / BEGIN) is not a write statement
+		if word not in ('SELECT', 'PRAGMA', 'SAVEPOINT', 'RELEASE', 'ROLLBACK', 'BEGIN'):
 			rec['stmts'].append((p, word))
 		if p == os.path.realpath(_S.get('gdb', '')):
 			rec['nsql'] += 1
@@ -408,6 +409,36 @@ def _run_session(case, gdb, shared):
 					else:
 						st = delete(Genome).where(Genome.id == ch[1])
 					s.execute(st.execution_options(synchronize_session=False))
+				# savepoint operations (not part of the Coq session machine: judged by the property predicate only)
+				elif c == 10:
+					s.begin_nested()
+				elif c == 11:
+					tx = s.get_nested_transaction()
+					if tx is None:
+						resp = [4]
+					else:
+						try:
+							tx.commit()
+						except TypeError:
+							resp = [2]
+						except FlushError:
+							resp = [3]
+				elif c == 12:
+					tx = s.get_nested_transaction()
+					if tx is None:
+						resp = [4]
+					else:
+						tx.rollback()
+				elif c == 13:
+					try:
+						with s.begin_nested():
+							g = s.query(Genome).filter_by(id=o[1]).one_or_none()
+							if g is not None:
+								g.description = f'{PFX}{o[2]}'
+					except TypeError:
+						resp = [2]
+					except FlushError:
+						resp = [3]
 			except InjectedFailure:
 				raise
 			except Exception as e:  # an exception class the model does not know
@@ -443,7 +474,8 @@ def _run_session(case, gdb, shared):
 
 
 OPNAMES = {0: 'add', 1: 'modify', 2: 'delete', 3: 'query', 4: 'flush', 5: 'commit', 6: 'rollback', 7: 'close',
-           8: 'transaction.commit', 9: 'raw DML'}
+           8: 'transaction.commit', 9: 'raw DML', 10: 'begin_nested', 11: 'savepoint.commit (release)',
+           12: 'savepoint.rollback', 13: 'with begin_nested(): modify'}
 
 
 def _opname(o):
@@ -479,9 +511,12 @@ def k_session(ctx, cases):
 	for c in cases:
 		fl = _model_flags(ctx, c['how']) if ctx.model_ok else [1, 1]
 		af = 1 if c['how'] == 'cli' else c['af']
-		reqs.append((1801, [fl[0], fl[1], af, table, c['ops']]))
+		modelled = [o for o in c['ops'] if o[0] < 10]
+		reqs.append((1801, [fl[0], fl[1], af, table, modelled]))
 	models = ctx.model(reqs) if ctx.model_ok else [None] * len(cases)
 	for c, m in zip(cases, models):
+		if any(o[0] >= 10 for o in c['ops']):
+			m = None   # savepoint operations are outside the session machine: property predicate only
 		if c['how'] == 'cli':
 			c = dict(c, af=1)
 		shared = c['how'] in PROPERTY_HOW
@@ -1023,6 +1058,27 @@ def generate(ctx):
 		how = rng.choice(['default', 'default', 'cli', 'explicit'])
 		yield 'session', dict(how=how, af=rng.choice([0, 1, 1]), ops=_rand_ops(rng, rng.randint(4, 30)))
 		ctx.count('stream:session-random')
+	# ---- savepoints (begin_nested) on the default / CLI sessions: outside the Coq session machine, judged by
+	# the property predicate only (no byte of the genome file changes, no write statement, commit raises) ----
+	sp_fixed = [
+		[[10], [1, 1, 7], [4], [11]], [[10], [0, 901, 3], [11]], [[13, 1, 5]], [[13, 2, 6], [4], [5]],
+		[[1, 1, 7], [10], [4], [11], [5]], [[10], [2, 3], [4], [12]], [[10], [10], [1, 2, 4], [4], [11], [11]],
+		[[10], [1, 1, 7], [3], [11]], [[13, 1, 5], [13, 2, 6], [3]], [[10], [1, 4, 2], [4], [6]],
+	]
+	for how in ('default', 'cli', 'explicit'):
+		for ops in sp_fixed:
+			yield 'session', dict(how=how, af=1, ops=[list(o) for o in ops])
+			ctx.count('stream:session-savepoint')
+	for _ in range(ctx.pick(40, 200)):
+		ops = []
+		for _ in range(rng.randint(2, 10)):
+			r = rng.random()
+			if r < 0.45:
+				ops.append(rng.choice([[10], [11], [12], [13, rng.choice(TRACKED), rng.randint(1, 9)]]))
+			else:
+				ops.append(_rand_ops(rng, 1)[0])
+		yield 'session', dict(how=rng.choice(['default', 'cli', 'explicit']), af=rng.choice([0, 1]), ops=ops)
+		ctx.count('stream:session-savepoint')
 	# ---- contrast: plain session and raw DML on private copies -----------------------------------
 	for syms in (['a', 'c'], ['a', 'q'], ['m1', 'f', 'r'], ['d2', 't'], ['a', 'f', 'x'], ['m1', 'c', 'm1', 'c'], ['a', 'c', 'd2', 'c']):
 		yield 'session', dict(how='plain', af=1, ops=_mk_ops(syms))
